@@ -151,3 +151,39 @@ Proof.
   now apply Forall_app.
 Qed.
 End Suffix.
+
+(* ---- the same induction, keeping the invariant of the final store: used for "every pipeline-wide
+   invariant of events and context states is preserved by Engine.run" (prefix empty, suf = all stages) ---- *)
+Section WholePipeline.
+Variables E St : Type.
+Variable good : E -> Prop.
+Variable Inv : St -> Prop.
+Variable gs : list (stage E St).
+Hypothesis all_keep : Forall (keeps_clean good Inv) gs.
+
+Lemma drain_keeps_inv : forall ps, Forall (keeps_clean good Inv) ps -> incl ps gs -> forall st,
+  SInv Inv gs st -> Forall good (snd (drain ps st)) /\ SInv Inv gs (fst (drain ps st)).
+Proof.
+  induction ps as [|g r IH]; intros Hk Hin st Hs; cbn [drain]; [split; [constructor|exact Hs]|].
+  inversion Hk as [|? ? Hg Hr]; subst. assert (Hgi : In g gs) by (apply Hin; now left).
+  destruct Hg as [_ Hd]. destruct (Hd (st (cid g)) (Hs g Hgi)) as [Hp Hi].
+  destruct (dr g (st (cid g))) as [s' pend]. cbn [fst snd] in *.
+  assert (Hin' : incl r gs) by (intros x Hx; apply Hin; now right).
+  destruct (@inputs_keeps E St good Inv gs r Hr Hin' pend (upd st (cid g) s') (@SInv_upd_in E St Inv gs st g s' Hs Hi) Hp) as [Ho Hs1].
+  destruct (inputs r (upd st (cid g) s') pend) as [st1 o1]. cbn [fst snd] in *.
+  destruct (IH Hr Hin' st1 Hs1) as [Ho2 Hs2]. destruct (drain r st1) as [st2 o2]. cbn [fst snd] in *.
+  split; [now apply Forall_app|exact Hs2].
+Qed.
+
+Theorem run_invariant st es : SInv Inv gs st -> Forall good es ->
+  let '(st1, o1) := inputs gs st es in
+  let '(st2, o2) := drain gs st1 in
+  Forall good (o1 ++ o2) /\ SInv Inv gs st2.
+Proof.
+  intros Hs He.
+  destruct (@inputs_keeps E St good Inv gs gs all_keep (fun x H => H) es st Hs He) as [Ho Hs1].
+  destruct (inputs gs st es) as [st1 o1]. cbn [fst snd] in *.
+  destruct (@drain_keeps_inv gs all_keep (fun x H => H) st1 Hs1) as [Ho2 Hs2].
+  destruct (drain gs st1) as [st2 o2]. cbn [fst snd] in *. split; [now apply Forall_app|exact Hs2].
+Qed.
+End WholePipeline.
